@@ -74,6 +74,10 @@ func parseSDL(root *Root, reader io.Reader) (types []Type, extends []*Extend, er
 			default:
 				err = fmt.Errorf("%w, '%s' is not a valid schema directive at %d:%d", ErrParse, token, p.line, p.col)
 			}
+		} else if err == nil && !p.eof {
+			// Not at the end and not a keyword, without an error here the same
+			// byte would be looked at forever.
+			err = fmt.Errorf("%w, unexpected character '%c' at %d:%d", ErrParse, p.onDeck, p.line, p.col)
 		}
 		if err != nil {
 			break
